@@ -3,7 +3,7 @@ TARGETS = {
     "c05_pool_asan": {"src": "C05/pool.cpp", "variant": "asan", "engine": "rc", "libs": ["eventx", "event", "base"]},
 }
 _q = {"cases": 2500, "max_size": 60, "case_alarm": 60}
-_t = {"cases": 12000, "max_size": 150, "case_alarm": 60}
+_t = {"cases": 40000, "max_size": 150, "case_alarm": 60}
 PROP = {
     "subchecks": [
         {"target": "c05_pool_tsan", "sub": "thread_pool", "quick": dict(_q, workers=5), "thorough": dict(_t, workers=6)},
